@@ -120,6 +120,9 @@ public:
   [[nodiscard]]
   Error move_imm_to_reg_arg(InvokeNode* invoke_node, const FuncValue& arg, const Imm& imm_, Out<Reg> out) noexcept;
 
+  //! Extends a GP register passed for a wider integer register argument (into a new virtual register).
+  Error move_reg_to_reg_arg(InvokeNode* invoke_node, const FuncValue& arg, const Reg& reg, Out<Reg> out) noexcept;
+
   [[nodiscard]]
   Error move_imm_to_stack_arg(InvokeNode* invoke_node, const FuncValue& arg, const Imm& imm_) noexcept;
 
@@ -620,6 +623,19 @@ Error RACFGBuilder::on_before_invoke(InvokeNode* invoke_node) noexcept {
               // TODO: Conversion is not supported.
               return make_error(Error::kInvalidAssignment);
             }
+
+            // An 8-bit or 16-bit GP register passed for a wider integer parameter must be extended the same way
+            // `move_reg_to_stack_arg()` extends it when the parameter lives on the stack - the upper bits of such a
+            // virtual register are undefined. (32-bit registers are passed as is.)
+            if (reg_group == RegGroup::kGp && TypeUtils::is_int(arg.type_id())) {
+              TypeId src_type_id = cc().virt_reg_by_id(reg.id())->type_id();
+              if ((TypeUtils::is_gp8(src_type_id) || TypeUtils::is_gp16(src_type_id)) &&
+                  TypeUtils::size_of(arg.type_id()) > TypeUtils::size_of(src_type_id)) {
+                Reg ext_reg;
+                ASMJIT_PROPAGATE(move_reg_to_reg_arg(invoke_node, arg, reg, Out(ext_reg)));
+                invoke_node->_args[arg_index][value_index] = ext_reg;
+              }
+            }
           }
         }
         else {
@@ -902,6 +918,39 @@ MovU32:
   cc().virt_reg_by_id(out->id())->set_weight(BaseRAPass::kCallArgWeight);
 
   return cc().mov(out->as<x86::Gp>(), imm);
+}
+
+// x86::RACFGBuilder - Move Reg to Reg Arg
+// =======================================
+
+Error RACFGBuilder::move_reg_to_reg_arg(InvokeNode* invoke_node, const FuncValue& arg, const Reg& reg, Out<Reg> out) noexcept {
+  Support::maybe_unused(invoke_node);
+  ASMJIT_ASSERT(arg.is_reg());
+
+  TypeId dst_type_id = arg.type_id();
+  TypeId src_type_id = cc().virt_reg_by_id(reg.id())->type_id();
+
+  // Sign extend only when both types are signed, zero extend otherwise (the rule of `move_reg_to_stack_arg()`).
+  bool sign_extend = (uint32_t(dst_type_id) & 1u) == 0u && (uint32_t(src_type_id) & 1u) == 0u;
+  bool dst_is_64bit = TypeUtils::size_of(dst_type_id) > 4;
+
+  ASMJIT_PROPAGATE(cc()._new_reg(out, dst_is_64bit ? TypeId::kUInt64 : TypeId::kUInt32, nullptr));
+  cc().virt_reg_by_id(out->id())->set_weight(BaseRAPass::kCallArgWeight);
+
+  Reg src(reg);
+  Reg dst(*out);
+
+  if (TypeUtils::is_gp8(src_type_id)) {
+    src.set_reg_t<RegType::kGp8Lo>(reg.id());
+    return cc().emit(sign_extend ? Inst::kIdMovsx : Inst::kIdMovzx, dst, src);
+  }
+
+  if (TypeUtils::is_gp16(src_type_id)) {
+    src.set_reg_t<RegType::kGp16>(reg.id());
+    return cc().emit(sign_extend ? Inst::kIdMovsx : Inst::kIdMovzx, dst, src);
+  }
+
+  return make_error(Error::kInvalidState);
 }
 
 // x86::RACFGBuilder - Move Imm to Stack Arg
